@@ -27,6 +27,10 @@ def up_or_low(d, nm):
     return bytes((b ^ 0x20) if (65 <= (b & 0xDF) <= 90 and d.below(2)) else b for b in nm)
 
 
+# numeric widths including ones the library does not support (a READ / WRITE / TEST that reaches such a variable is an ERROR)
+SIZES_X = (1, 2, 4, 1, 2, 4, 1, 2, 4, 1, 2, 4, 3, 8, 5)
+
+
 def g_var(d, types=(INT, UINT, HEX, BHEX, STR), sizes_num=(1, 2, 4), max_buf=12, access=(RW, RO, WO), named=True, callbacks=True, fails=True):
     t = d.pick(types)
     if t in (INT, UINT, HEX):
@@ -117,6 +121,21 @@ def g_groups(d, cmds, maxgroups=3, disable=True):
             gs.append(dict(name=(b"g%d" % len(gs)) if d.below(2) else None, disable=1 if (disable and d.unlikely(1, 10)) else 0, cmds=cmds[prev:c]))
             prev = c
     return gs
+
+
+def add_alias(d, groups):
+    """register the command array of one group a second time through a further group placed behind it; exactly one
+    of the two registrations is enabled (two enabled registrations of one command would make its own abbreviations
+    ambiguous, which no statement speaks about).  Returns True if an alias group was added."""
+    if len(groups) >= 6:
+        return False
+    k = d.below(len(groups))
+    first_on = d.below(2)
+    groups[k]["disable"] = 0 if first_on else 1
+    a = dict(name=b"ga" if d.below(2) else None, disable=1 if first_on else 0, cmds=[], alias=k)
+    groups.insert(d.rng(k + 1, len(groups)), a)
+    # alias indices of groups behind the insertion point do not exist yet (one alias per table)
+    return True
 
 
 def g_sched(d, maxruns=20, maxlen=6):
